@@ -4,14 +4,17 @@
 #  (A) io.IncrementalNewlineDecoder(codecs.getincrementaldecoder(enc)(errors='strict'), translate=True), call by call (output of
 #      every decode call, pendingcr and the pending bytes of the inner decoder after it, the call that raises): ALL 2^(n-1)
 #      partitions of EVERY byte string up to length L over the alphabet {CR LF " , a C3 A9 E2 82 AC F0 9F 98 80 EF BB BF FF}
-#      (entry 231), plus random longer strings with random partitions, empty reads included (entry 230);
+#      and over the bound-changing bytes {ED A0 9F BF 80 E0 F0 90 F4 8F a CR} (entry 231), plus random longer strings with
+#      random partitions, empty reads included (entry 230);
 #  (B) io.IncrementalNewlineDecoder(None, translate=True) over text pieces with arbitrary final flags (entry 234: nl_trace);
 #  (C) io.TextIOWrapper(raw, encoding=enc) over a raw stream with prescribed short reads, directly and behind a BufferedReader,
 #      read whole and by read(k): the text must be nl_norm (decode bytes) of the model (entry 233) on every partition, a
 #      UnicodeDecodeError exactly when the model's decoder rejects the bytes;
 #  (D) rbql_csv.CSVRecordIterator over such raw streams: every partition gives the records of the spec on the MODEL's decoded
 #      text (entry 202 on the text of entry 233), an IO-handling error when the model rejects the bytes; sampled (partition,
-#      chunk size) pairs against run_py_bytes itself (entry 232).
+#      chunk size) pairs against run_py_bytes itself (entry 232);
+#  (E) the same reader over io.BytesIO / a real file, where TextIOWrapper cuts the bytes itself at multiples of 8192: multi-byte
+#      characters, CR LF, a BOM, bad sequences placed across that boundary at every offset.
 import itertools
 import json
 import os
@@ -22,6 +25,8 @@ import lib
 
 ALPHA_B = [13, 10, 34, 44, 97, 0xC3, 0xA9, 0xE2, 0x82, 0xAC, 0xF0, 0x9F, 0x98, 0x80, 0xEF, 0xBB, 0xBF, 0xFF]
 SMALL_B = [13, 10, 97, 0xC3, 0xA9, 0xE2, 0x82, 0xAC]
+# the bytes at which the utf-8 state machine's bounds change (E0 A0, ED 9F|A0, F0 90, F4 8F|90): overlong forms, surrogates, > U+10FFFF
+BOUNDS_B = [0xED, 0xA0, 0x9F, 0xBF, 0x80, 0xE0, 0xF0, 0x90, 0xF4, 0x8F, 97, 13]
 ENC = {'utf-8': 1, 'latin-1': 2}
 TH_TL = ('C12_text_layer_valid / C12_text_layer_invalid / C12_text_layer_trace (Props/C12.v): the text pieces of every partition concatenate '
          'to nl_norm (decode bytes), undecodable bytes raise on every partition [model text_layer_trace vs io.IncrementalNewlineDecoder over the codec]')
@@ -146,6 +151,11 @@ def dec_all_strings(ctx):
         for n in range(full + 1, top + 1):
             for t in itertools.product(SMALL_B, repeat=n):
                 yield e, t
+    base = set(ALPHA_B)
+    for n in range(1, (4 if ctx.tier == 'quick' else 5) + 1):
+        for t in itertools.product(BOUNDS_B, repeat=n):
+            if not set(t) <= base:
+                yield 'utf-8', t
 
 
 VALID_TOK = [b'a', b'"', b',', b'\n', b'\r', b'\r\n', b'\xc3\xa9', b'\xe2\x82\xac', b'\xf0\x9f\x98\x80', b'\xef\xbb\xbf', b'\xc2\x80',
@@ -291,6 +301,11 @@ def tiow_strings(ctx):
                     if (e, t) not in seen:
                         seen.add((e, t))
                         yield e, t
+    for n in range(1, (3 if ctx.tier == 'quick' else 4) + 1):
+        for t in itertools.product(BOUNDS_B, repeat=n):
+            if ('utf-8', t) not in seen:
+                seen.add(('utf-8', t))
+                yield 'utf-8', t
     rng = ctx.rng
     for _ in range(1500 if ctx.tier == 'quick' else 20000):
         data = random_bytes(rng)
@@ -355,15 +370,15 @@ def reader_strings(ctx):
             seen.add((e, t))
             return True
         return False
-    full = 2 if ctx.tier == 'quick' else 3
+    full = 3 if ctx.tier == 'quick' else 4
     for e in ('utf-8', 'latin-1'):
         for n in range(0, full + 1):
             for t in itertools.product(ALPHA_B, repeat=n):
                 if emit(e, t):
                     yield e, t
-        for n in range(full + 1, (4 if ctx.tier == 'quick' else 5) + 1):
+        for n in range(full + 1, (4 if ctx.tier == 'quick' else 6) + 1):
             for t in itertools.product(SMALL_B + [34], repeat=n):
-                if (ctx.tier == 'thorough' or rng.random() < 0.25) and emit(e, t):
+                if rng.random() < (0.25 if ctx.tier == 'quick' else 0.5 if n == 5 else 0.08) and emit(e, t):
                     yield e, t
         for t in itertools.product(ALPHA_B, repeat=1 if ctx.tier == 'quick' else 2):     # behind a BOM
             t = (0xEF, 0xBB, 0xBF) + t
@@ -444,11 +459,60 @@ def part_d(ctx, c12):
     ctx.stat('run_py_bytes_ioerror', sum(1 for e in e_one if e == ['ioerr']))
 
 
+# ------------------------------------------------------------------ (E) TextIOWrapper's own cuts: the 8192-byte chunk boundary
+
+CHUNK = 8192
+SPECIALS = [b'\xc3\xa9', b'\xe2\x82\xac', b'\xf0\x9f\x98\x80', b'\r\n', b'\r\r\n', b'\xef\xbb\xbf', b'"\r\n"', b'\r', b'\xf0\x9f\x28', b'\xed\xa0\x80', b'\xc3']
+
+
+def part_e(ctx, c12):
+    """no prescribed reads here: io.BytesIO / a real file, so the wrapper cuts the bytes itself at multiples of its chunk size; a
+    multi-byte character, a CR LF pair, a BOM, a bad sequence is placed across that boundary at every offset"""
+    rng = ctx.rng
+    cfgs = c12.configs('quick', rng)
+    raw = []
+    for sp in SPECIALS:
+        for k in range(0, len(sp) + 1):
+            if ctx.tier == 'quick' and len(sp) > 2 and k in (0, len(sp)) and rng.random() < 0.5:
+                continue
+            head = (b'\xef\xbb\xbf' if rng.random() < 0.3 else b'') + b'ab,"c d"\n' * rng.randint(0, 3)
+            n_fill = CHUNK * rng.choice([1, 1, 2]) - k - len(head)
+            fill = (b'xy,z\n' * (n_fill // 5 + 1))[:n_fill]
+            tail = rng.choice([b'', b',t\nu,v', b'\n', b'\r\nw'])
+            raw.append(head + fill + sp + tail)
+    pairs = [(rng.choice(['utf-8', 'utf-8', 'latin-1']), tuple(d)) for d in raw]
+    dec, _, _ = decode_model(pairs)
+    valid, invalid = [], []
+    for (e, t), d in zip(pairs, dec):
+        c = dict(rng.choice(cfgs))
+        c.update(part='tl', kind='bytes_stream', via=rng.choice(['bytesio', 'file']), data=list(t), encoding=e, text=d[0], cs=rng.choice([None, 1, 7, 1024]))
+        (valid if d[0] is not None else invalid).append(c)
+    exp, _, _, have, _ = c12.expected_for(valid, ctx)
+    got = lib.run_impl_py('c12tl', valid)
+    if have:
+        ctx.compare(valid, exp, got, TH_RB + ' [BytesIO / file: the wrapper cuts at its own 8192-byte chunk boundary]',
+                    describe=lambda c, e, g: 'CSVRecordIterator over %s of %d bytes (%s, policy=%r comment=%r header=%r chunk_size=%r; bytes around the 8192 boundary: %r) '
+                                             'differs from the spec on the model-decoded text: spec tail=%r implementation tail=%r' % (
+                                                 c['via'], len(c['data']), c['encoding'], c['policy'], c['comment'], c['header'], c['cs'], c['data'][CHUNK - 6:CHUNK + 6],
+                                                 (e[1][-2:] if e and e[0] == 'ok' else e), (g[1][-2:] if isinstance(g, list) and g and g[0] == 'ok' else g)))
+    i_got = lib.run_impl_py('c12tl', invalid)
+    ctx.compare(invalid, [None] * len(invalid), i_got, TH_RB + ' [undecodable bytes across the 8192-byte chunk boundary]',
+                rel=lambda c, e, g: e is None and isinstance(g, list) and len(g) >= 2 and g[0] == 'err' and g[1] == 'RbqlIOHandlingError',
+                describe=lambda c, e, g: 'undecodable bytes around offset 8192 (%r, %s) not answered with an IO-handling error: %r' % (
+                    c['data'][CHUNK - 6:CHUNK + 6], c['encoding'], g))
+    ctx.count(len(valid) + len(invalid))
+    ctx.stat('chunk_boundary_runs', len(valid) + len(invalid))
+    ctx.stat('chunk_boundary_runs_undecodable', len(invalid))
+
+
 def run(ctx, c12):
-    part_a(ctx)
-    part_b(ctx)
-    part_c(ctx)
-    part_d(ctx, c12)
+    import time
+    t0 = time.time()
+    for name, f in (('A', lambda: part_a(ctx)), ('B', lambda: part_b(ctx)), ('C', lambda: part_c(ctx)), ('D', lambda: part_d(ctx, c12)), ('E', lambda: part_e(ctx, c12))):
+        f()
+        t1 = time.time()
+        ctx.stat('tl_seconds_part_' + name, round(t1 - t0, 1))
+        t0 = t1
 
 
 def replay(ctx, case, c12):
@@ -473,6 +537,16 @@ def replay(ctx, case, c12):
         got = lib.run_impl_py('c12tl', [case])
         ctx.count(1)
         ctx.compare([case], exp, got, TH_TW, rel=rel_single)
+        return
+    if kind == 'bytes_stream':
+        dec, _, _ = decode_model([(case['encoding'], tuple(case['data']))])
+        got = lib.run_impl_py('c12tl', [case])
+        ctx.count(1)
+        if dec[0][0] is None:
+            ctx.compare([case], [None], got, TH_RB, rel=lambda c, e, g: e is None and isinstance(g, list) and len(g) >= 2 and g[0] == 'err' and g[1] == 'RbqlIOHandlingError')
+        else:
+            exp, _, _, _, _ = c12.expected_for([dict(case, text=dec[0][0])], ctx)
+            ctx.compare([case], exp, got, TH_RB)
         return
     if kind in ('bytes_all', 'bytes_one'):
         dec, _, _ = decode_model([(case['encoding'], tuple(case['data']))])
